@@ -37,6 +37,8 @@ type Log struct {
 	enc    *json.Encoder
 	benc   *json.Encoder
 	Traces int
+	// flushEach: write every event through (drivers whose process may die with the code under test)
+	flushEach bool
 }
 
 func NewLog(tracePath, boundsPath string, appendMode bool) (*Log, error) {
@@ -56,7 +58,7 @@ func NewLog(tracePath, boundsPath string, appendMode bool) (*Log, error) {
 	if err != nil {
 		return nil, err
 	}
-	l := &Log{f: f, bf: bf, line: lines}
+	l := &Log{f: f, bf: bf, line: lines, flushEach: os.Getenv("VERIF_FLUSH") != ""}
 	l.w = bufio.NewWriterSize(f, 1<<20)
 	l.bw = bufio.NewWriter(bf)
 	l.enc = json.NewEncoder(l.w)
@@ -71,6 +73,9 @@ func (l *Log) Emit(ev Ev) {
 		panic(fmt.Sprintf("log encode: %v (%v)", err, ev))
 	}
 	l.line++
+	if l.flushEach {
+		l.w.Flush()
+	}
 }
 
 func (l *Log) End(id int) {
@@ -79,6 +84,10 @@ func (l *Log) End(id int) {
 		l.Emit(Ev{"op": "nop"})
 	}
 	l.benc.Encode(bound{S: l.start, E: l.line, ID: id})
+	if l.flushEach {
+		l.w.Flush()
+		l.bw.Flush()
+	}
 	l.Traces++
 }
 
